@@ -10,6 +10,7 @@ import (
 	"io"
 	"math/big"
 	"reflect"
+	"sort"
 	"strconv"
 	"strings"
 	"time"
@@ -435,4 +436,29 @@ func treeEqual(a, b *jnode) bool {
 	putTree(ca, a)
 	putTree(cb, b)
 	return reflect.DeepEqual(ca.Toks, cb.Toks)
+}
+
+// canonTags sorts the entries of every object stored under a key "tags" (a Go map on the
+// library's side: its order is codec-dependent) — in place.
+func canonTags(j *jnode) *jnode {
+	for _, x := range j.arr {
+		canonTags(x)
+	}
+	for i, x := range j.vals {
+		if j.keys[i] == "tags" && x.k == jObj {
+			idx := make([]int, len(x.keys))
+			for k := range idx {
+				idx[k] = k
+			}
+			sort.SliceStable(idx, func(a, b int) bool { return x.keys[idx[a]] < x.keys[idx[b]] })
+			nk, nv := make([]string, len(idx)), make([]*jnode, len(idx))
+			for k, ix := range idx {
+				nk[k], nv[k] = x.keys[ix], x.vals[ix]
+			}
+			x.keys, x.vals = nk, nv
+		} else {
+			canonTags(x)
+		}
+	}
+	return j
 }
